@@ -262,7 +262,7 @@ class Eval(object):
           if a[0] == "app":
             if a[1] in FINITE_ATOMS:
               counts[a] = counts.get(a, 0) + 1
-            if first:
+            if first and not a[1].startswith("reduce_"):
               for arg in a[3]:
                 if isinstance(arg, NF):
                   visit_nf(arg)
@@ -437,6 +437,17 @@ class Eval(object):
       lo = ev(args[0]).bounds()[0]
       hi = ev(args[1]).bounds()[1]
       return VS.real(lo, hi)
+    if f.startswith("reduce_"):
+      # x is bound inside a reduction (all elements): evaluate the argument
+      # without the element-wise region assumptions
+      if self.env.x.kind != "grid" or self.env.x.g != 0 or \
+          self.env.x.lo is not None or self.env.x.hi is not None or \
+          self.env.xsign is not None:
+        outer = getattr(self, "_outer", None)
+        if outer is None:
+          outer = Eval(Env(syms=self.env.syms), self.split_budget)
+          self._outer = outer
+        ev = outer.nf
     if f in ("reduce_max", "reduce_min"):
       return ev(args[0])
     if f == "reduce_mean":
@@ -669,6 +680,25 @@ def equal_mod_finite(a, b, env=None, max_atoms=3):
   d = a - b
   if d.is_zero():
     return True
+  # reductions bind x: unify reduction atoms whose arguments are equal as
+  # functions (decided recursively), then compare what is left
+  def reductions(nf):
+    return [at for at in nf.atoms() if at[0] == "app" and
+            at[1].startswith("reduce_")]
+  ra, rb = reductions(a), reductions(b)
+  mp = {}
+  for atb in rb:
+    if atb in ra:
+      continue
+    for ata in ra:
+      if ata[1] == atb[1] and ata[2] == atb[2] and max_atoms > 0 and \
+          equal_mod_finite(ata[3][0], atb[3][0], None, max_atoms):
+        mp[atb] = NF.atom(ata)
+        break
+  if mp:
+    b2 = b.subst(mp, simplify_app)
+    if b2 != b:
+      return equal_mod_finite(a, b2, env, max_atoms)
   ev = Eval(env or Env())
   cands = []
   for at in d.atoms():
